@@ -1672,7 +1672,7 @@ pub fn run<S: Suite>(t: &mut Tape, cfg: &Cfg, out: &mut RunOut) {
         }
     };
     // (derive_group_info recomputes all n public keys: at n = 65535 that is tens of seconds for Ed448)
-    let skip_derive = (cfg.many && n > 96) || (n > 8192 && S::NAME == "ed448");
+    let skip_derive = (cfg.many && n > 1200) || (n > 8192 && S::NAME == "ed448");
     let (all_pks, gpk2) = if skip_derive {
         // (as the sample program does: each signer's public key taken from its share)
         (shares.iter().map(|sh| S::share_public(*sh)).collect::<Vec<_>>(), gpk)
